@@ -4,8 +4,13 @@
 // forced job counts via $VERIF_HWC (see hwc_shim.cpp).
 //
 // case file:  N \n  then N times:
-//   kind(perm|laplace|grad) prec(d|f) nrows ncols
+//   kind(perm|laplace|grad|ffi) prec(d|f) nrows ncols
 //   rows[nrows]   cols[ncols]   re im  * nrows*ncols (row major)
+// or, for the batched XLA-FFI backward handler of src/jax_perm/jax_perm_core.cpp:
+//   bwd d nrows ncols batch
+//   batch times: rows[nrows] cols[ncols] (re im)*nrows*ncols  cot_re cot_im
+// (output: batch*nrows*ncols cotangents; BATCH_MISMATCHES counts batch elements that differ
+//  bitwise from cot * grad_perm of the same element evaluated on its own)
 #include <complex>
 #include <cstdio>
 #include <cstdlib>
@@ -25,9 +30,39 @@ struct Case {
     std::string kind;
     char prec;
     int nrows, ncols;
+    int batch = 0;
     std::vector<int> rows, cols;
     std::vector<std::complex<double>> a;
+    std::vector<std::complex<double>> cot;
 };
+
+int verif_perm_bwd_batched(std::complex<double> *A, uint64_t *rows, uint64_t *cols,
+                           std::complex<double> *cot, std::complex<double> *out,
+                           int64_t batch, int64_t n, int64_t m);
+int verif_perm_fwd(std::complex<double> *A, uint64_t *rows, uint64_t *cols, std::complex<double> *y, int64_t n, int64_t m);
+
+static std::vector<std::complex<double>> run_bwd(const Case &c)
+{
+    // private copies: the handler receives plain pointers into caller-owned buffers
+    std::vector<std::complex<double>> A(c.a), cot(c.cot);
+    std::vector<uint64_t> rows(c.rows.begin(), c.rows.end()), cols(c.cols.begin(), c.cols.end());
+    std::vector<std::complex<double>> out(A.size(), std::complex<double>(-7.0, 7.0));
+    if (verif_perm_bwd_batched(A.data(), rows.data(), cols.data(), cot.data(), out.data(), c.batch, c.nrows, c.ncols) != 0)
+        return {};
+    if (std::memcmp(A.data(), c.a.data(), A.size() * sizeof(A[0])) != 0)
+        out.push_back(std::complex<double>(1e300, 1e300));  // input modified: make the result differ
+    return out;
+}
+
+static std::vector<std::complex<double>> run_ffi_fwd(const Case &c)
+{
+    std::vector<std::complex<double>> A(c.a);
+    std::vector<uint64_t> rows(c.rows.begin(), c.rows.end()), cols(c.cols.begin(), c.cols.end());
+    std::complex<double> y(-7.0, 7.0);
+    if (verif_perm_fwd(A.data(), rows.data(), cols.data(), &y, c.nrows, c.ncols) != 0)
+        return {};
+    return {y};
+}
 
 template <typename T>
 static std::vector<std::complex<double>> run_T(const Case &c)
@@ -51,6 +86,10 @@ static std::vector<std::complex<double>> run_T(const Case &c)
 
 static std::vector<std::complex<double>> run(const Case &c)
 {
+    if (c.kind == "bwd")
+        return run_bwd(c);
+    if (c.kind == "ffi")
+        return run_ffi_fwd(c);
     if (c.kind == "grad") {
         Matrix<std::complex<double>> A(c.nrows, c.ncols);
         for (size_t i = 0; i < c.a.size(); i++) A[i] = c.a[i];
@@ -80,6 +119,16 @@ int main(int argc, char **argv)
         std::string p;
         in >> c.kind >> p >> c.nrows >> c.ncols;
         c.prec = p[0];
+        if (c.kind == "bwd") {
+            in >> c.batch;
+            for (int b = 0; b < c.batch; b++) {
+                for (int i = 0; i < c.nrows; i++) { int r; in >> r; c.rows.push_back(r); }
+                for (int i = 0; i < c.ncols; i++) { int r; in >> r; c.cols.push_back(r); }
+                for (int i = 0; i < c.nrows * c.ncols; i++) { double re, im; in >> re >> im; c.a.emplace_back(re, im); }
+                double re, im; in >> re >> im; c.cot.emplace_back(re, im);
+            }
+            continue;
+        }
         c.rows.resize(c.nrows); c.cols.resize(c.ncols);
         for (auto &r : c.rows) in >> r;
         for (auto &r : c.cols) in >> r;
@@ -109,6 +158,30 @@ int main(int argc, char **argv)
                 std::memcmp(results[t][i].data(), results[0][i].data(),
                             results[0][i].size() * sizeof(std::complex<double>)) != 0)
                 mismatches++;
+    // batched backward: every batch element must equal cot * grad_perm of that element alone
+    long batch_mismatches = 0, batch_elements = 0;
+    for (size_t i = 0; i < cases.size(); i++) {
+        const Case &c = cases[i];
+        if (c.kind != "bwd") continue;
+        size_t sz = static_cast<size_t>(c.nrows) * c.ncols;
+        if (results[0][i].size() != sz * c.batch) { batch_mismatches += c.batch; batch_elements += c.batch; continue; }
+        for (int b = 0; b < c.batch; b++) {
+            Case one;
+            one.kind = "grad"; one.prec = 'd'; one.nrows = c.nrows; one.ncols = c.ncols;
+            one.rows.assign(c.rows.begin() + b * c.nrows, c.rows.begin() + (b + 1) * c.nrows);
+            one.cols.assign(c.cols.begin() + b * c.ncols, c.cols.begin() + (b + 1) * c.ncols);
+            one.a.assign(c.a.begin() + b * sz, c.a.begin() + (b + 1) * sz);
+            auto g = run(one);
+            batch_elements++;
+            bool ok = g.size() == sz;
+            for (size_t k = 0; ok && k < sz; k++) {
+                std::complex<double> want = c.cot[b] * g[k], got = results[0][i][b * sz + k];
+                if (std::memcmp(&want, &got, sizeof(want)) != 0) ok = false;
+            }
+            if (!ok) batch_mismatches++;
+        }
+    }
+    std::printf("BATCH_ELEMENTS %ld\nBATCH_MISMATCHES %ld\n", batch_elements, batch_mismatches);
     for (size_t i = 0; i < cases.size(); i++) {
         std::printf("%zu", i);
         for (auto &z : results[0][i]) std::printf(" %.17g %.17g", z.real(), z.imag());
